@@ -33,7 +33,7 @@ Section Domain.
     let s := l_text (atom_lit a) in
     if is_extra v then
       match atom_op a with
-      | CEq => negb (is_nil s) && bytes_eqb (canonicalize_name s) s && negb (go_valid [] && go_valid s)
+      | CEq => negb (is_nil s) && bytes_eqb (canonicalize_name s) s
       | _ => false
       end
     else
